@@ -33,6 +33,58 @@ def desugar_variants(rng, prog):
     return out
 
 
+INTS = [0, 1, -1, 2, 3, 7, 10, 255, 256, 65535, 2 ** 31 - 1, 2 ** 31, 2 ** 32, 2 ** 52, 2 ** 53 - 2, 2 ** 53 - 1, -(2 ** 53 - 1), -(2 ** 53 - 2), 2 ** 53, -(2 ** 53)]
+
+
+def wrap64(x):
+    x &= (1 << 64) - 1
+    return x - (1 << 64) if x >= (1 << 63) else x
+
+
+def operator_tables(rep, rng):
+    """Bitwise / shift / unary operators on boundary integers: Python integers are the reference."""
+    SAFE = 2 ** 53 - 1
+    cases = []
+    pairs = [(a, b) for a in INTS for b in INTS]
+    if rep.tier == 'quick':
+        pairs = rng.sample(pairs, 160)
+    for a, b in pairs:
+        for op, sym in (('band', '&'), ('bor', '|'), ('bxor', '^'), ('shl', '<<'), ('shr', '>>')):
+            if op in ('shl', 'shr'):
+                b2 = rng.choice([0, 1, 2, 31, 52, 53, 62, 63, 64, 65, -1])
+            else:
+                b2 = b
+            src = '(%d) %s (%d)' % (a, sym, b2)
+            exp = None
+            if abs(a) > SAFE or abs(b2) > SAFE:
+                exp = 'err:NumberNotBitwiseSafe'
+            elif op in ('shl', 'shr') and b2 < 0:
+                exp = 'err:ShiftByNegative'
+            elif op == 'band':
+                exp = a & b2
+            elif op == 'bor':
+                exp = a | b2
+            elif op == 'bxor':
+                exp = a ^ b2
+            elif op == 'shr':
+                exp = a >> (b2 & 63)
+            else:
+                r = wrap64(a << (b2 & 63))
+                exp = r if (r >> (b2 & 63)) == a else 'err:NumberNotBitwiseSafe'
+            cases.append((src, exp))
+    for a in INTS:
+        cases.append(('~(%d)' % a, 'err:NumberNotBitwiseSafe' if abs(a) > SAFE else ~a))
+    outs = [C.canon_impl(x) for x in vlib.impl([vlib.eval_line(s) for s, _ in cases])]
+    for (src, exp), a in zip(cases, outs):
+        rep.bump('operator-table')
+        rep.count('c02op:' + src, True)
+        want = 'ok ' + C.canon_json(float(exp)) if not isinstance(exp, str) else exp
+        got = a if a.startswith('ok') else 'err:' + (a.split(' ')[2] if a.startswith('err eval') else a[:30])
+        if got != want:
+            rep.violation('c02op:' + src, 'operator table: %s should be %s, implementation answered %s' % (src, want, got[:80]),
+                          {'src': src, 'impl': a, 'expected': want})
+
+
 def run(rep):
     rep.rule = ("closed core programs generated as syntax trees (type-directed, mostly well-typed, with a share of "
                 "type errors, explicit errors, asserts, std.trace), printed with minimal and with redundant "
@@ -76,6 +128,21 @@ def run(rep):
         if C.norm(a) != C.norm(b):
             rep.disagreement('c02:' + s, 'implementation and specification model disagree',
                              {'src': s, 'sexp': G.to_sexp(p), 'impl': a, 'model': b})
+    # late binding / forcing order: closed-form expected results (independent of the model), and the model
+    lb = G.late_binding_cases(rng, 120 if rep.tier == 'quick' else 4000)
+    lsrc, lio, lmo = C.run_pair([p for p, _ in lb], max_stack=500, fuel=6000, traces=False)
+    for (p, exp), s, a, b in zip(lb, lsrc, lio, lmo):
+        rep.bump('late-binding')
+        rep.count(s, True)
+        want = 'ok ' + C.canon_json(exp[1]) if exp[0] == 'ok' else 'err eval %s %s' % (exp[1], vlib.hx(exp[2]))
+        if C.norm(a) != C.norm(want):
+            rep.violation('c02lb:' + s, 'late binding: expected %s, implementation answered %s' % (want[:120], a[:120]),
+                          {'src': s, 'impl': a, 'expected': want})
+        if not (b.startswith('unsupported') or b.startswith('gas')) and C.norm(a) != C.norm(b):
+            rep.disagreement('c02:' + s, 'implementation and specification model disagree',
+                             {'src': s, 'sexp': G.to_sexp(p), 'impl': a, 'model': b})
+    # operator tables against Python's arbitrary-precision integers / IEEE doubles
+    operator_tables(rep, rng)
     # specification equations checked directly on the implementation
     pairs = []
     for p in progs[: (400 if rep.tier == 'quick' else 8000)]:
